@@ -801,6 +801,15 @@ IvValue(t) ==
           IF ~v.hasoff \/ d.tie THEN [ok |-> FALSE] ELSE [ok |-> TRUE, st |-> AsFixed(v), en |-> Add(AsFixed(v), CofD(d))]
      ELSE LET v == Recognise(a)  w == Recognise(b) IN
           IF ~v.hasoff \/ ~w.hasoff THEN [ok |-> FALSE] ELSE [ok |-> TRUE, st |-> AsFixed(v), en |-> AsFixed(w)]
+\* a string with the SHAPE of an ISO week date (YYYY-Www[-D] or YYYYWww[D], alone): [has, y, wk, wd]
+WeekShape(t) ==
+  LET n == Len(t)
+      ext == n \in {8, 10} /\ t[5] = cDash /\ t[6] = cW /\ AllDigits(Sub(t, 1, 4)) /\ AllDigits(Sub(t, 7, 8))
+             /\ (n = 10 => t[9] = cDash /\ IsDigit(t[10]))
+      bas == n \in {7, 8} /\ t[5] = cW /\ AllDigits(Sub(t, 1, 4)) /\ AllDigits(Sub(t, 6, 7)) /\ (n = 8 => IsDigit(t[8]))
+  IN IF ext THEN [has |-> TRUE, y |-> Num(Sub(t, 1, 4)), wk |-> Num(Sub(t, 7, 8)), wd |-> IF n = 10 THEN t[10] - 48 ELSE 1]
+     ELSE IF bas THEN [has |-> TRUE, y |-> Num(Sub(t, 1, 4)), wk |-> Num(Sub(t, 6, 7)), wd |-> IF n = 8 THEN t[8] - 48 ELSE 1]
+     ELSE [has |-> FALSE]
 J_parse_any(e) ==
   LET t == e.a.text  p == e.post  o == e.a.opts
       ascii == \A i \in 1..Len(t) : t[i] < 128
@@ -830,6 +839,11 @@ J_parse_any(e) ==
            THEN LET v == IF r.kind = "date" /\ ~o.exact THEN [r EXCEPT !.kind = "datetime"] ELSE r IN CmpParsed(p.top, v, PendCls, "recognised")
            ELSE <<>>)
        \o (IF okd THEN CmpParsedDur(p.top, rd, "recognised-duration") ELSE <<>>)
+       \* a week number beyond the weeks of its ISO year, or a weekday beyond 7, is no date: accepting it means computing a
+       \* value from a wrapped-around number (week 00 / weekday 0 are the known finding of C07 and left to it)
+       \o (LET ws == IF ascii THEN WeekShape(t) ELSE [has |-> FALSE] IN
+           IF ws.has /\ o.strict /\ ws.y >= 1 /\ ws.wk # 0 /\ ws.wd # 0 /\ (ws.wk > WeeksInIsoYear(ws.y) \/ ws.wd > 7)
+           THEN V("impossible-week-date-rejected", p.top.k = "exc", "ValueError") ELSE <<>>)
        \* a well-formed interval whose date-times carry their offsets denotes two definite instants (C13), whatever the back-end
        \o (IF ivok /\ p.top.k = "iv" /\ IvEndpointInRange(t)
            THEN LET iv == IvValue(t) IN
